@@ -22,7 +22,7 @@ M=[
 		} else {
 			unlocked.Store(true)
 		}"""),
- ("M03-csync-mutex-cancel-without-release","C01 C02","csync/mutex.go","""		case <-ctx.Done():
+ ("M03-csync-rwmutex-cancel-without-release","C02","csync/rwmutex.go","""		case <-ctx.Done():
 			release()
 			return nil, context.Canceled""","""		case <-ctx.Done():
 			return nil, context.Canceled"""),
